@@ -486,7 +486,7 @@ func (p *SendForm) typecheckForm(gammaNameTypesCtx NamesTypesCtx, providerShadow
 		return TypeErrorf("the send construct requires that you use the self name or send self as a continuation. In '%s', self was not used appropriately", p.String())
 	}
 
-	if polarityError := checkExplicitPolarityValidity(p, p.to_c, p.payload_c, p.continuation_c); polarityError != nil {
+	if polarityError := checkExplicitPolarityValidity(p, labelledTypesEnv, p.to_c, p.payload_c, p.continuation_c); polarityError != nil {
 		return TypeErrorE(polarityError)
 	}
 
@@ -533,7 +533,7 @@ func (p *ReceiveForm) typecheckForm(gammaNameTypesCtx NamesTypesCtx, providerSha
 		p.payload_c.Type = newLeftType
 		p.continuation_c.Type = newRightType
 
-		if polarityError := checkExplicitPolarityValidity(p, p.from_c, p.payload_c, p.continuation_c); polarityError != nil {
+		if polarityError := checkExplicitPolarityValidity(p, labelledTypesEnv, p.from_c, p.payload_c, p.continuation_c); polarityError != nil {
 			return TypeErrorE(polarityError)
 		}
 
@@ -584,7 +584,7 @@ func (p *ReceiveForm) typecheckForm(gammaNameTypesCtx NamesTypesCtx, providerSha
 		p.payload_c.Type = newLeftType
 		p.continuation_c.Type = newRightType
 
-		if polarityError := checkExplicitPolarityValidity(p, p.from_c, p.payload_c, p.continuation_c); polarityError != nil {
+		if polarityError := checkExplicitPolarityValidity(p, labelledTypesEnv, p.from_c, p.payload_c, p.continuation_c); polarityError != nil {
 			return TypeErrorE(polarityError)
 		}
 
@@ -675,7 +675,7 @@ func (p *SelectForm) typecheckForm(gammaNameTypesCtx NamesTypesCtx, providerShad
 	}
 
 	// Ensure correct explicit polarities (if used)
-	if err := checkExplicitPolarityValidity(p, p.to_c, p.continuation_c); err != nil {
+	if err := checkExplicitPolarityValidity(p, labelledTypesEnv, p.to_c, p.continuation_c); err != nil {
 		return TypeErrorE(err)
 	}
 
@@ -722,7 +722,7 @@ func (p *CaseForm) typecheckForm(gammaNameTypesCtx NamesTypesCtx, providerShadow
 			// Set type
 			curBranchForm.payload_c.Type = expectedBranchType.SessionType
 
-			polarityError := checkExplicitPolarityValidity(p, curBranchForm.payload_c)
+			polarityError := checkExplicitPolarityValidity(p, labelledTypesEnv, curBranchForm.payload_c)
 			if polarityError != nil {
 				return TypeErrorE(polarityError)
 			}
@@ -790,7 +790,7 @@ func (p *CaseForm) typecheckForm(gammaNameTypesCtx NamesTypesCtx, providerShadow
 			// Set type
 			curBranchForm.payload_c.Type = expectedBranchType.SessionType
 
-			polarityError := checkExplicitPolarityValidity(p, curBranchForm.payload_c)
+			polarityError := checkExplicitPolarityValidity(p, labelledTypesEnv, curBranchForm.payload_c)
 			if polarityError != nil {
 				return TypeErrorE(polarityError)
 			}
@@ -812,7 +812,7 @@ func (p *CaseForm) typecheckForm(gammaNameTypesCtx NamesTypesCtx, providerShadow
 		p.from_c.Type = clientSelectLabelType
 	}
 
-	polarityError := checkExplicitPolarityValidity(p, p.from_c)
+	polarityError := checkExplicitPolarityValidity(p, labelledTypesEnv, p.from_c)
 	if polarityError != nil {
 		return TypeErrorE(polarityError)
 	}
@@ -912,7 +912,7 @@ func (p *NewForm) typecheckForm(gammaNameTypesCtx NamesTypesCtx, providerShadowN
 				return TypeErrorE(err)
 			}
 
-			polarityError := checkExplicitPolarityValidity(p, p.new_name_c)
+			polarityError := checkExplicitPolarityValidity(p, labelledTypesEnv, p.new_name_c)
 			if polarityError != nil {
 				return TypeErrorE(polarityError)
 			}
@@ -970,7 +970,7 @@ func (p *NewForm) typecheckForm(gammaNameTypesCtx NamesTypesCtx, providerShadowN
 			p.new_name_c.Type = types.Unfold(p.new_name_c.Type, labelledTypesEnv)
 			gammaRightNameTypesCtx[p.new_name_c.Ident] = NamesType{Type: p.new_name_c.Type}
 
-			polarityError := checkExplicitPolarityValidity(p, p.new_name_c)
+			polarityError := checkExplicitPolarityValidity(p, labelledTypesEnv, p.new_name_c)
 			if polarityError != nil {
 				return TypeErrorE(polarityError)
 			}
@@ -1007,7 +1007,7 @@ func (p *CloseForm) typecheckForm(gammaNameTypesCtx NamesTypesCtx, providerShado
 
 		p.from_c.Type = providerUnitType
 
-		polarityError := checkExplicitPolarityValidity(p, p.from_c)
+		polarityError := checkExplicitPolarityValidity(p, labelledTypesEnv, p.from_c)
 		if polarityError != nil {
 			return TypeErrorE(polarityError)
 		}
@@ -1060,7 +1060,7 @@ func (p *WaitForm) typecheckForm(gammaNameTypesCtx NamesTypesCtx, providerShadow
 		// Set type
 		p.to_c.Type = clientUnitType
 
-		polarityError := checkExplicitPolarityValidity(p, p.to_c)
+		polarityError := checkExplicitPolarityValidity(p, labelledTypesEnv, p.to_c)
 		if polarityError != nil {
 			return TypeErrorE(polarityError)
 		}
@@ -1109,7 +1109,7 @@ func (p *ForwardForm) typecheckForm(gammaNameTypesCtx NamesTypesCtx, providerSha
 	p.from_c.Type = clientType
 
 	// compare annotated polarities
-	if polarityError := checkExplicitPolarityValidity(p, p.to_c, p.from_c); polarityError != nil {
+	if polarityError := checkExplicitPolarityValidity(p, labelledTypesEnv, p.to_c, p.from_c); polarityError != nil {
 		return TypeErrorE(polarityError)
 	}
 
@@ -1137,7 +1137,7 @@ func (p *DropForm) typecheckForm(gammaNameTypesCtx NamesTypesCtx, providerShadow
 			p.client_c.Type = clientType
 
 			// compare annotated polarities
-			polarityError := checkExplicitPolarityValidity(p, p.client_c)
+			polarityError := checkExplicitPolarityValidity(p, labelledTypesEnv, p.client_c)
 			if polarityError != nil {
 				return TypeErrorE(polarityError)
 			}
@@ -1197,7 +1197,7 @@ func (p *CallForm) typecheckForm(gammaNameTypesCtx NamesTypesCtx, providerShadow
 			p.parameters[i].Type = foundParamType
 
 			// compare annotated polarities
-			polarityError := checkExplicitPolarityValidity(p, p.parameters[i])
+			polarityError := checkExplicitPolarityValidity(p, labelledTypesEnv, p.parameters[i])
 			if polarityError != nil {
 				return TypeErrorE(polarityError)
 			}
@@ -1233,7 +1233,7 @@ func (p *CallForm) typecheckForm(gammaNameTypesCtx NamesTypesCtx, providerShadow
 			p.parameters[i].Type = foundParamType
 
 			// compare annotated polarities
-			if polarityError := checkExplicitPolarityValidity(p, p.parameters[i]); polarityError != nil {
+			if polarityError := checkExplicitPolarityValidity(p, labelledTypesEnv, p.parameters[i]); polarityError != nil {
 				return TypeErrorE(polarityError)
 			}
 		}
@@ -1292,7 +1292,7 @@ func (p *SplitForm) typecheckForm(gammaNameTypesCtx NamesTypesCtx, providerShado
 	p.channel_two.Type = foundType
 
 	// compare annotated polarities
-	if polarityError := checkExplicitPolarityValidity(p, p.from_c, p.channel_one, p.channel_two); polarityError != nil {
+	if polarityError := checkExplicitPolarityValidity(p, labelledTypesEnv, p.from_c, p.channel_one, p.channel_two); polarityError != nil {
 		return TypeErrorE(polarityError)
 	}
 
@@ -1395,7 +1395,7 @@ func (p *CastForm) typecheckForm(gammaNameTypesCtx NamesTypesCtx, providerShadow
 		return TypeErrorf("the case construct requires that you cast to 'self' or cast 'self' as the continuation. In '%s', 'self' was not used", p.String())
 	}
 
-	if polarityError := checkExplicitPolarityValidity(p, p.to_c, p.continuation_c); polarityError != nil {
+	if polarityError := checkExplicitPolarityValidity(p, labelledTypesEnv, p.to_c, p.continuation_c); polarityError != nil {
 		return TypeErrorE(polarityError)
 	}
 
@@ -1437,7 +1437,7 @@ func (p *ShiftForm) typecheckForm(gammaNameTypesCtx NamesTypesCtx, providerShado
 		p.from_c.Type = providerUpType
 		p.continuation_c.Type = expectedContinuationType
 
-		if polarityError := checkExplicitPolarityValidity(p, p.from_c, p.continuation_c); polarityError != nil {
+		if polarityError := checkExplicitPolarityValidity(p, labelledTypesEnv, p.from_c, p.continuation_c); polarityError != nil {
 			return TypeErrorE(polarityError)
 		}
 
@@ -1487,7 +1487,7 @@ func (p *ShiftForm) typecheckForm(gammaNameTypesCtx NamesTypesCtx, providerShado
 		p.from_c.Type = clientDownType
 		p.continuation_c.Type = newContinuationType
 
-		if polarityError := checkExplicitPolarityValidity(p, p.from_c, p.continuation_c); polarityError != nil {
+		if polarityError := checkExplicitPolarityValidity(p, labelledTypesEnv, p.from_c, p.continuation_c); polarityError != nil {
 			return TypeErrorE(polarityError)
 		}
 
@@ -1802,9 +1802,14 @@ func nameInNames(check Name, names ...Name) bool {
 }
 
 // Compare annotated polarity to the (more precise) polarities inferred from the type
-func checkExplicitPolarityValidity(p Form, names ...Name) error {
+func checkExplicitPolarityValidity(p Form, labelledTypesEnv types.LabelledTypesEnv, names ...Name) error {
 
 	for _, name := range names {
+		if name.ExplicitPolarity != nil && name.Type != nil {
+			// The type may still be a type name: unfold it before asking for its polarity
+			name.Type = types.Unfold(name.Type, labelledTypesEnv)
+		}
+
 		if !name.ExplicitPolarityValid() {
 			return fmt.Errorf("invalid polarities in %s, expected %s, but found %s", p.String(), types.PolarityMap[name.Type.Polarity()], types.PolarityMap[*name.ExplicitPolarity])
 		}
